@@ -1,5 +1,65 @@
 """Pieces shared by several checks."""
+from vlib import agent as ag
+from vlib import core, drivers
+from vlib import refber as rb
 
 
 def policer_integration(rep):
-    return
+    """C19, session side: every request of a rate-limited session consults the policer exactly once, before the
+    datagram is sent (sync: wait_sync(), async: wait()); buffered GetBulk items do not."""
+    try:
+        G = drivers.load()
+    except Exception as e:  # noqa: BLE001 - the policer itself needs no extension; this part is optional
+        rep.parts["session_integration"] = {"status": "unavailable", "reason": repr(e)[:200]}
+        return
+    from gufo.snmp.policer import BasePolicer
+
+    for driver in ("sync", "async"):
+        for ver in ("v1", "v2c", "v3"):
+            log = []
+
+            class Rec(BasePolicer):
+                def get_timeout(self, ts):
+                    log.append("policer")
+                    return None
+
+            cfg = {"v1": ag.Cfg("v1"), "v2c": ag.Cfg("v2c"), "v3": ag.Cfg("v3", engine_id=b"\x80\x00\x00\x00\x05")}[ver]
+            names = [(1, 3, 6, 1, 2, 1, 2, i) for i in range(1, 8)]
+
+            def handler(d):
+                log.append("request")
+                req = ag.decode_request(cfg, d, strict=False)
+                oid = req["varbinds"][0][0] if req["varbinds"] else None
+                if req["pdu_tag"] == rb.PDU_GET:
+                    return [ag.build_reply(cfg, req, [rb.varbind(rb.enc_oid(v[0]), rb.enc_int(1)) for v in req["varbinds"]])]
+                succ = [n for n in names if n > oid]
+                if not succ:
+                    return [ag.build_reply(cfg, req, [rb.varbind(rb.enc_oid(oid), rb.tlv(rb.T_ENDOFMIBVIEW, b""))])]
+                k = 1 if req["pdu_tag"] == rb.PDU_GETNEXT else 3
+                return [ag.build_reply(cfg, req, [rb.varbind(rb.enc_oid(n), rb.enc_int(2)) for n in succ[:k]])]
+
+            calls = [("get", "1.3.6.1.2.1.1.1.0"), ("get_many", ["1.3.6.1.2.1.1.1.0", "1.3.6.1.2.1.1.2.0"]), ("getnext", "1.3.6.1.2.1.2")]
+            if ver != "v1":
+                calls += [("getbulk", "1.3.6.1.2.1.2", 3), ("fetch", "1.3.6.1.2.1.2")]
+            outs = drivers.run_calls(G, driver, cfg, calls, handler, timeout=2.0, session_kw={"policer": Rec()})
+            if any(o.kind != "ok" for o in outs):
+                raise core.Failure("rate-limited-session-failed", "%s/%s with a policer: %r" % (driver, ver, outs))
+            nreq = log.count("request")
+            want = ["policer", "request"] * nreq
+            if log != want:
+                raise core.Failure("policer-not-consulted-once-per-request:" + driver,
+                                   "%s/%s: event order %r (every request must be preceded by exactly one policer consultation)" % (driver, ver, log[:40]))
+            rep.case(("policer-session", driver, ver), True, sample={"driver": driver, "version": ver, "requests": nreq},
+                     classes=["session_integration:" + driver])
+    # constructor plumbing: limit_rps builds an RPS policer, invalid rates are refused
+    for bad in (0, -1):
+        try:
+            G.sync.SnmpSession("127.0.0.1", port=1, limit_rps=bad)
+        except ValueError:
+            continue
+        except Exception as e:  # noqa: BLE001
+            raise core.Failure("limit-rps-wrong-exception", "limit_rps=%r raised %r" % (bad, e))
+        # limit_rps=0 means "no limit" in the constructor (falsy) - that is documented behaviour ("Optional"), accept
+        if bad != 0:
+            raise core.Failure("limit-rps-accepts-invalid", "limit_rps=%r accepted" % (bad,))
+    rep.parts["session_integration"] = {"status": "ran"}
